@@ -413,7 +413,7 @@ static Result run_history(const Case &c, int mode) {
     for (auto &s : w.slot) if (s.live) { if (liberasurecode_instance_destroy(s.desc) != 0) r.fail("final destroy failed"); s.live = false; s.s = Stripe(); }
     for (auto &s : w.slot) s.s = Stripe();
     if (mode == MODE_C16 && r.ok) {
-        if (__lsan_do_recoverable_leak_check() != 0) r.fail("LeakSanitizer: memory still allocated after the history and destruction of all instances");
+        if (__lsan_do_recoverable_leak_check() != 0 && (r.fatal = true)) r.fail("LeakSanitizer: memory still allocated after the history and destruction of all instances");
     }
     for (auto &p : w.counts) r.cls("op_" + p.first);
     if (w.wrapped) r.cls("counter_wrapped");
@@ -491,7 +491,7 @@ static Result run_c16_pair(const Case &c) {
             if (d.rc == 0 && (d.out != data || d.cleanup_rc != 0)) r.fail("decode/decode_cleanup wrong");
         }
     }
-    if (__lsan_do_recoverable_leak_check() != 0) r.fail("LeakSanitizer: leak after encode/decode + cleanup + destroy for this shape");
+    if (__lsan_do_recoverable_leak_check() != 0 && (r.fatal = true)) r.fail("LeakSanitizer: leak after encode/decode + cleanup + destroy for this shape");
     r.nontrivial = true;
     return r;
 }
